@@ -35,18 +35,19 @@
    switch of mechanism M_PutAfterLastIn (Puts right after the read loop, before the tail is handed over). *)
 EXTENDS Integers, Sequences, FiniteSets, TLC, Json
 
-CONSTANTS Mode,          \* "serial" | "conc"
+CONSTANTS Mode,          \* "serial" | "conc" | "gz"
           MaxLen,        \* serial: bound on the body length of a single-request case
           SeqLen,        \* serial: bound on the first body's length of a two-request case (second is shorter)
           ConcLen,       \* conc: bound on the body length of each of the two requests
+          GzLen,         \* gz: bound on the body length of the two overlapping gzip requests
           Symbols,       \* non-newline symbols (positive integers); 0 is the newline
           Mutant         \* "none" = faithful transcription
 
 NL == 0
 FRESH == -1              \* a byte of a freshly made buffer that was never written
 
-VARIABLES cs,            \* the case: sequence of requests [body, sizes, end, zr]
-          pc,            \* per request: idle getR getE getSid read chunk flush inlast putSid putE putR status done
+VARIABLES cs,            \* the case: sequence of requests [body, sizes, end, zr, gz, bad]
+          pc,            \* per request: idle getZ getR getE getSid read chunk flush inlast putSid putE putR status putZ done
           rbuf, rn,      \* per request: readBuff (id of its backing array), n of the last Read
           eb,            \* per request: eventBuff slice header [id, len]   (id of the backing array)
           pend,          \* per request: the slice [id, len] handed to an In call that has not copied it yet (id 0 = none)
@@ -56,12 +57,16 @@ VARIABLES cs,            \* the case: sequence of requests [body, sizes, end, zr
           k, off,        \* per request: index of the next scripted read, bytes consumed so far
           res,           \* per request: "" | "ok" | "err"   (processBulk's result)
           poolR, poolE,  \* p.readBuffs, p.eventBuffs  (sequences of pooled buffers)
+          zr,            \* per request: the *gzip.Reader it holds (id, 0 = none)
+          zobj,          \* the gzip reader objects: id -> [src, pos]  (whose body it was Reset to, bytes delivered)
+          poolZ, nZ,     \* p.gzipReaderPool (sequence of ids: an object put twice is in it twice), objects made so far
           freeSids, sidSeq,   \* p.sourceIDs (free list, LIFO), p.sourceSeq
           slog,          \* history: per source id, the In calls  <<[req, data]>>
           ncalls,        \* history: per request, number of In calls made
           status, statusAt    \* per request: HTTP status written (0 = none), ncalls at that moment
 
-vars == <<cs, pc, rbuf, rn, eb, pend, memR, memE, nR, nE, sid, k, off, res, poolR, poolE, freeSids, sidSeq, slog, ncalls, status, statusAt>>
+gzVars == <<zr, zobj, poolZ, nZ>>
+vars == <<cs, pc, rbuf, rn, eb, pend, memR, memE, nR, nE, sid, k, off, res, poolR, poolE, freeSids, sidSeq, slog, ncalls, status, statusAt, gzVars>>
 
 -----------------------------------------------------------------------------
 (* helpers *)
@@ -71,8 +76,9 @@ IndexNL(s) == IF \E i \in 1..Len(s) : s[i] = NL
 RECURSIVE Flatten(_)
 Flatten(ss) == IF ss = <<>> THEN <<>> ELSE Head(ss) \o Flatten(Tail(ss))
 IsPrefix(a, b) == Len(a) <= Len(b) /\ SubSeq(b, 1, Len(a)) = a
-RB == IF MaxLen > SeqLen THEN (IF MaxLen > ConcLen THEN MaxLen ELSE ConcLen)
-      ELSE (IF SeqLen > ConcLen THEN SeqLen ELSE ConcLen)          \* model length of the read buffer (>= any body)
+Max(a, b) == IF a > b THEN a ELSE b
+Min(a, b) == IF a < b THEN a ELSE b
+RB == Max(Max(MaxLen, SeqLen), Max(Max(ConcLen, GzLen), 1))        \* model length of the read buffer (>= any body)
 
 (* all compositions of n into positive parts = all ways the transport can split n bytes into reads *)
 Comps[n \in 0..RB] == IF n = 0 THEN {<<>>}
@@ -98,42 +104,61 @@ OracleOK(body) ==
 
 (* ------------------------------------------------------------------------ *)
 (* CASES                                                                     *)
-AllEnds == {"with", "after", "err"}
+AllEnds == {"with", "after", "err", "ueof", "ueofd"}
+ErrEnds == {"err", "ueof", "ueofd"}          \* the body was NOT delivered completely: only io.EOF ends a body cleanly
 \* "with":  last data read returns (n, io.EOF), every later read (0, io.EOF)
 \* "after": every data read returns (n, nil), then (0, io.EOF)
 \* "err":   every data read returns (n, nil), then (0, some other error)
+\* "ueof":  every data read returns (n, nil), then (0, io.ErrUnexpectedEOF)   -- the body was cut short (what net/http
+\*          reports for a body shorter than its Content-Length, what gzip reports for a truncated stream)
+\* "ueofd": the last data read returns (n, io.ErrUnexpectedEOF), every later read (0, io.ErrUnexpectedEOF)
 \* zr:      a (0, nil) read before every other read
-EndsFor(n, ends) == IF n = 0 THEN ends \ {"with"} ELSE ends   \* (n,EOF) on the last read needs a last read
+EndsFor(n, ends) == IF n = 0 THEN ends \ {"with", "ueofd"} ELSE ends   \* (n,err) on the last data read needs a data read
 
-Req(b, c, e, z) == [body |-> b, sizes |-> c, end |-> e, zr |-> z]
+Req(b, c, e, z) == [body |-> b, sizes |-> c, end |-> e, zr |-> z, gz |-> FALSE, bad |-> FALSE]
+\* a request with Content-Encoding: gzip; bad = its payload does not start with a valid gzip header.
+\* (named abstraction: compression itself is the identity; what is modelled of gzip is the stateful, pooled
+\*  reader object: Reset points it to a body, Read delivers that body's bytes from the object's position)
+ReqG(b, c, bad) == [body |-> b, sizes |-> c, end |-> "after", zr |-> FALSE, gz |-> TRUE, bad |-> bad]
 Bodies(n, syms) == [1..n -> syms \cup {NL}]
 MinSym == CHOOSE x \in Symbols : \A y \in Symbols : x <= y
 
 \* serial: one request (all flavours), or two successive requests, the second body shorter than the first
 \* conc:   two requests over disjoint alphabets
+\* gz:     the three-step sequence: a good gzip request, a gzip request with a bad header, then two overlapping
+\*         gzip requests over disjoint alphabets (requests 1, 2 run one after the other; 3 and 4 interleave)
 \* (written with quantifiers so that TLC enumerates the cases instead of building one big set)
 CaseInit ==
   IF Mode = "serial"
     THEN \/ \E n \in 0..MaxLen : \E b \in Bodies(n, Symbols) : \E c \in Comps[n] :
-              \E e \in EndsFor(n, AllEnds) : \E z \in BOOLEAN :
+              \E e \in EndsFor(n, AllEnds) : \E z \in (IF e \in ErrEnds THEN {FALSE} ELSE BOOLEAN) :
                 cs = << Req(b, c, e, z) >>
-         \/ \E n \in 1..SeqLen : \E b \in Bodies(n, Symbols) : \E c \in Comps[n] : \E e \in EndsFor(n, AllEnds) :
+         \/ \E n \in 1..SeqLen : \E b \in Bodies(n, Symbols) : \E c \in Comps[n] :
+              \E e \in EndsFor(n, {"with", "after", "err", "ueof"}) :
               \E n2 \in 0..(n - 1) : \E b2 \in Bodies(n2, Symbols) : \E c2 \in Comps[n2] :
                 \E e2 \in {"after"} :      \* (the EOF flavours are covered by the single requests and by the first request)
                   cs = << Req(b, c, e, FALSE), Req(b2, c2, e2, FALSE) >>
-    ELSE \E n \in 0..ConcLen : \E b \in Bodies(n, {MinSym}) : \E c \in Comps[n] : \E e \in EndsFor(n, {"after", "err"}) :
+    ELSE IF Mode = "conc"
+    THEN \E n \in 0..ConcLen : \E b \in Bodies(n, {MinSym}) : \E c \in Comps[n] : \E e \in EndsFor(n, {"after", "err"}) :
            \E n2 \in 0..ConcLen : \E b2 \in Bodies(n2, Symbols \ {MinSym}) : \E c2 \in Comps[n2] :
              \E e2 \in EndsFor(n2, {"with", "after"}) :
                cs = << Req(b, c, e, FALSE), Req(b2, c2, e2, FALSE) >>
+    ELSE \E n \in 0..GzLen : \E b \in Bodies(n, {MinSym}) : \E c \in Comps[n] :
+           \E n2 \in 0..GzLen : \E b2 \in Bodies(n2, Symbols \ {MinSym}) : \E c2 \in Comps[n2] :
+             cs = << ReqG(<<MinSym>>, <<1>>, FALSE), ReqG(<<>>, <<>>, TRUE), ReqG(b, c, FALSE), ReqG(b2, c2, FALSE) >>
 
-\* the reads the transport performs for request r:  <<[n, e]>>,  e \in {"nil","eof","err"}
+\* the reads the transport performs for request r:  <<[n, e]>>,  e \in {"nil","eof","ueof","err"}
 Script(r) ==
   LET c == Len(r.sizes)
       Z == IF r.zr THEN << [n |-> 0, e |-> "nil"] >> ELSE <<>>
-      item(j) == [n |-> r.sizes[j], e |-> IF j = c /\ r.end = "with" THEN "eof" ELSE "nil"]
+      item(j) == [n |-> r.sizes[j], e |-> IF j = c /\ r.end = "with" THEN "eof"
+                                          ELSE IF j = c /\ r.end = "ueofd" THEN "ueof" ELSE "nil"]
   IN Flatten([j \in 1..c |-> Z \o <<item(j)>>])
-     \o (IF r.end = "with" THEN <<>> ELSE Z)
-     \o << [n |-> 0, e |-> IF r.end = "err" THEN "err" ELSE "eof"] >>
+     \o (IF r.end \in {"with", "ueofd"} THEN <<>> ELSE Z)
+     \o << [n |-> 0, e |-> IF r.end = "err" THEN "err" ELSE IF r.end \in {"ueof", "ueofd"} THEN "ueof" ELSE "eof"] >>
+
+\* which read results end the body cleanly: io.EOF only (mutant ueof_is_eof: io.ErrUnexpectedEOF too)
+EofLike(e) == e = "eof" \/ (Mutant = "ueof_is_eof" /\ e = "ueof")
 
 -----------------------------------------------------------------------------
 (* slices *)
@@ -181,6 +206,7 @@ Init ==
   /\ slog = [s \in 0..(Len(cs) - 1) |-> <<>>]
   /\ ncalls = [i \in Reqs |-> 0]
   /\ status = [i \in Reqs |-> 0] /\ statusAt = [i \in Reqs |-> 0]
+  /\ zr = [i \in Reqs |-> 0] /\ zobj = [z \in BufIds |-> [src |-> 0, pos |-> 0]] /\ poolZ = <<>> /\ nZ = 0
 
 RemoveAt(s, j) == SubSeq(s, 1, j - 1) \o SubSeq(s, j + 1, Len(s))
 \* which pooled item a Get may return: serial = the one put last (or none if empty); conc = any, or none
@@ -200,9 +226,50 @@ AfterPutR(i, r) == IF PBL THEN (IF r = "err" THEN "putSid" ELSE "flush") ELSE "s
 (* ServeHTTP -> serveBulk -> processBulk entered *)
 Start(i) ==
   /\ pc[i] = "idle"
-  /\ IF Mode = "serial" /\ i > 1 THEN pc[i - 1] = "done" ELSE TRUE
-  /\ pc' = [pc EXCEPT ![i] = "getR"]
-  /\ UNCHANGED <<cs, rbuf, rn, eb, pend, memR, memE, nR, nE, sid, k, off, res, poolR, poolE, freeSids, sidSeq, slog, ncalls, status, statusAt>>
+  /\ IF Mode = "serial" /\ i > 1 THEN pc[i - 1] = "done"
+     ELSE IF Mode = "gz" /\ i \in {2, 3} THEN pc[i - 1] = "done"
+     ELSE IF Mode = "gz" /\ i = 4 THEN pc[2] = "done"
+     ELSE TRUE
+  /\ pc' = [pc EXCEPT ![i] = IF cs[i].gz THEN "getZ" ELSE "getR"]
+  /\ UNCHANGED <<cs, rbuf, rn, eb, pend, memR, memE, nR, nE, sid, k, off, res, poolR, poolE, freeSids, sidSeq, slog, ncalls, status, statusAt, gzVars>>
+
+(* serveBulk, Content-Encoding: gzip:   zr, err := p.acquireGzipReader(reader); on error 400 and return;
+   defer p.putGzipReader(zr).
+   acquireGzipReader: pool Get; nothing pooled -> gzip.NewReader(r) (no object on a bad header); a pooled object ->
+   Reset(r); when Reset fails the object is DROPPED (returned with the error, never Put).  From the Get on the
+   request OWNS the object, until the deferred Put after the response was written.
+   mutant gz_double_put: the failed-Reset path Puts the object in acquireGzipReader AND the deferred Put runs.   *)
+GetZ(i) ==
+  /\ pc[i] = "getZ"
+  /\ \E j \in PoolChoices(poolZ) :
+       IF j = 0
+         THEN IF cs[i].bad
+                THEN /\ res' = [res EXCEPT ![i] = "err"] /\ pc' = [pc EXCEPT ![i] = "status"]
+                     /\ UNCHANGED <<zr, zobj, poolZ, nZ>>
+                ELSE /\ nZ' = nZ + 1 /\ zr' = [zr EXCEPT ![i] = nZ + 1]
+                     /\ zobj' = [zobj EXCEPT ![nZ + 1] = [src |-> i, pos |-> 0]]
+                     /\ pc' = [pc EXCEPT ![i] = "getR"]
+                     /\ UNCHANGED <<poolZ, res>>
+         ELSE LET z == poolZ[j] IN
+              IF cs[i].bad
+                THEN /\ res' = [res EXCEPT ![i] = "err"] /\ pc' = [pc EXCEPT ![i] = "status"]
+                     /\ IF Mutant = "gz_double_put"
+                          THEN zr' = [zr EXCEPT ![i] = z] /\ poolZ' = Append(RemoveAt(poolZ, j), z)
+                          ELSE poolZ' = RemoveAt(poolZ, j) /\ UNCHANGED zr
+                     /\ UNCHANGED <<zobj, nZ>>
+                ELSE /\ zr' = [zr EXCEPT ![i] = z] /\ poolZ' = RemoveAt(poolZ, j)
+                     /\ zobj' = [zobj EXCEPT ![z] = [src |-> i, pos |-> 0]]
+                     /\ pc' = [pc EXCEPT ![i] = "getR"]
+                     /\ UNCHANGED <<nZ, res>>
+  /\ UNCHANGED <<cs, rbuf, rn, eb, pend, memR, memE, nR, nE, sid, k, off, poolR, poolE, freeSids, sidSeq, slog, ncalls, status, statusAt>>
+
+(* deferred p.putGzipReader(zr), after the response was written: ownership of the object ends here *)
+PutZ(i) ==
+  /\ pc[i] = "putZ"
+  /\ poolZ' = Append(poolZ, zr[i])
+  /\ zr' = [zr EXCEPT ![i] = 0]
+  /\ pc' = [pc EXCEPT ![i] = "done"]
+  /\ UNCHANGED <<cs, rbuf, rn, eb, pend, memR, memE, nR, nE, sid, k, off, res, poolR, poolE, freeSids, sidSeq, slog, ncalls, status, statusAt, zobj, nZ>>
 
 (* readBuff := p.newReadBuff()      -- from now on the request OWNS this buffer, until readBuffs.Put *)
 GetR(i) ==
@@ -214,7 +281,7 @@ GetR(i) ==
                 ELSE /\ rbuf' = [rbuf EXCEPT ![i] = poolR[j]] /\ poolR' = RemoveAt(poolR, j)
                      /\ UNCHANGED <<nR, memR>>
   /\ pc' = [pc EXCEPT ![i] = "getE"]
-  /\ UNCHANGED <<cs, rn, eb, pend, memE, nE, sid, k, off, res, poolE, freeSids, sidSeq, slog, ncalls, status, statusAt>>
+  /\ UNCHANGED <<cs, rn, eb, pend, memE, nE, sid, k, off, res, poolE, freeSids, sidSeq, slog, ncalls, status, statusAt, gzVars>>
 
 (* eventBuff := p.newEventBuffs()   -- pooled buffer re-sliced to [:0]; owned until eventBuffs.Put *)
 GetE(i) ==
@@ -227,7 +294,7 @@ GetE(i) ==
                      /\ poolE' = RemoveAt(poolE, j)
                      /\ UNCHANGED nE
   /\ pc' = [pc EXCEPT ![i] = "getSid"]
-  /\ UNCHANGED <<cs, rbuf, rn, pend, memR, memE, nR, sid, k, off, res, poolR, freeSids, sidSeq, slog, ncalls, status, statusAt>>
+  /\ UNCHANGED <<cs, rbuf, rn, pend, memR, memE, nR, sid, k, off, res, poolR, freeSids, sidSeq, slog, ncalls, status, statusAt, gzVars>>
 
 (* sourceID := p.getSourceID()   (under p.mu) *)
 GetSid(i) ==
@@ -239,25 +306,43 @@ GetSid(i) ==
             /\ freeSids' = IF Mutant = "sid_early_release" THEN freeSids ELSE SubSeq(freeSids, 1, Len(freeSids) - 1)
             /\ UNCHANGED sidSeq
   /\ pc' = [pc EXCEPT ![i] = "read"]
-  /\ UNCHANGED <<cs, rbuf, rn, eb, pend, memR, memE, nR, nE, k, off, res, poolR, poolE, slog, ncalls, status, statusAt>>
+  /\ UNCHANGED <<cs, rbuf, rn, eb, pend, memR, memE, nR, nE, k, off, res, poolR, poolE, slog, ncalls, status, statusAt, gzVars>>
 
-(* n, err := r.Read(readBuff) and the three-way branch after it *)
+(* n, err := r.Read(readBuff) and the three-way branch after it:
+     n == 0 && err == io.EOF -> break;   err != nil && err != io.EOF -> return err (the n bytes are dropped);
+     otherwise processChunk(readBuff[:n]).
+   A gzip request reads through ITS reader object: the bytes of the body the object was last Reset to.          *)
 Read(i) ==
   /\ pc[i] = "read"
-  /\ LET s == Script(cs[i])[k[i]] IN
-       IF s.n = 0 /\ s.e = "eof"
-         THEN /\ pc' = [pc EXCEPT ![i] = AfterLoop(i)]                         \* break
-              /\ UNCHANGED <<memR, rn, k, off, res>>
-       ELSE IF s.e = "err"
-         THEN /\ pc' = [pc EXCEPT ![i] = AfterLoopErr(i)] /\ res' = [res EXCEPT ![i] = "err"]   \* return err
-              /\ UNCHANGED <<memR, rn, k, off>>
-         ELSE /\ memR' = [memR EXCEPT ![rbuf[i]] = SubSeq(cs[i].body, off[i] + 1, off[i] + s.n) \o SubSeq(@, s.n + 1, RB)]
-              /\ rn' = [rn EXCEPT ![i] = s.n]
-              /\ off' = [off EXCEPT ![i] = off[i] + s.n]
-              /\ k' = [k EXCEPT ![i] = IF k[i] < Len(Script(cs[i])) THEN k[i] + 1 ELSE k[i]]
-              /\ pc' = [pc EXCEPT ![i] = "chunk"]
-              /\ UNCHANGED res
-  /\ UNCHANGED <<cs, rbuf, eb, pend, memE, nR, nE, sid, poolR, poolE, freeSids, sidSeq, slog, ncalls, status, statusAt>>
+  /\ IF cs[i].gz
+       THEN LET o == zobj[zr[i]]
+                avail == Len(cs[o.src].body) - o.pos
+                want == IF k[i] <= Len(cs[i].sizes) THEN cs[i].sizes[k[i]] ELSE 1
+                m == Min(want, avail)
+            IN IF avail = 0
+                 THEN /\ pc' = [pc EXCEPT ![i] = AfterLoop(i)]
+                      /\ UNCHANGED <<memR, rn, k, off, res, zobj>>
+                 ELSE /\ memR' = [memR EXCEPT ![rbuf[i]] = SubSeq(cs[o.src].body, o.pos + 1, o.pos + m) \o SubSeq(@, m + 1, RB)]
+                      /\ rn' = [rn EXCEPT ![i] = m]
+                      /\ off' = [off EXCEPT ![i] = off[i] + m]
+                      /\ k' = [k EXCEPT ![i] = k[i] + 1]
+                      /\ zobj' = [zobj EXCEPT ![zr[i]].pos = o.pos + m]
+                      /\ pc' = [pc EXCEPT ![i] = "chunk"]
+                      /\ UNCHANGED res
+       ELSE LET s == Script(cs[i])[k[i]] IN
+            IF s.n = 0 /\ EofLike(s.e)
+              THEN /\ pc' = [pc EXCEPT ![i] = AfterLoop(i)]                         \* break
+                   /\ UNCHANGED <<memR, rn, k, off, res, zobj>>
+            ELSE IF s.e # "nil" /\ ~EofLike(s.e)
+              THEN /\ pc' = [pc EXCEPT ![i] = AfterLoopErr(i)] /\ res' = [res EXCEPT ![i] = "err"]   \* return err
+                   /\ UNCHANGED <<memR, rn, k, off, zobj>>
+              ELSE /\ memR' = [memR EXCEPT ![rbuf[i]] = SubSeq(cs[i].body, off[i] + 1, off[i] + s.n) \o SubSeq(@, s.n + 1, RB)]
+                   /\ rn' = [rn EXCEPT ![i] = s.n]
+                   /\ off' = [off EXCEPT ![i] = off[i] + s.n]
+                   /\ k' = [k EXCEPT ![i] = IF k[i] < Len(Script(cs[i])) THEN k[i] + 1 ELSE k[i]]
+                   /\ pc' = [pc EXCEPT ![i] = "chunk"]
+                   /\ UNCHANGED <<res, zobj>>
+  /\ UNCHANGED <<cs, rbuf, eb, pend, memE, nR, nE, sid, poolR, poolE, freeSids, sidSeq, slog, ncalls, status, statusAt, zr, poolZ, nZ>>
 
 Emit(i, out) ==
   /\ slog' = [slog EXCEPT ![sid[i]] = @ \o [j \in 1..Len(out) |-> [req |-> i, data |-> out[j]]]]
@@ -274,7 +359,7 @@ Chunk(i) ==
        /\ eb' = [eb EXCEPT ![i].len = r.eb.len]
        /\ Emit(i, r.out)
   /\ pc' = [pc EXCEPT ![i] = "read"]
-  /\ UNCHANGED <<cs, rbuf, rn, pend, memR, nR, nE, sid, k, off, res, poolR, poolE, freeSids, sidSeq, status, statusAt>>
+  /\ UNCHANGED <<cs, rbuf, rn, pend, memR, nR, nE, sid, k, off, res, poolR, poolE, freeSids, sidSeq, status, statusAt, gzVars>>
 
 (* if len(eventBuff) > 0 { processChunk(sourceID, readBuff[:0], eventBuff, true, meta) }; return nil
    processChunk with an empty chunk and isLastChunk: In(append(eventBuff, readBuff[0:0]...)) = In(eventBuff).
@@ -292,7 +377,7 @@ Flush(i) ==
   /\ IF Mutant = "early_status"        \* mutant: status written before the carry-over is flushed
        THEN status' = [status EXCEPT ![i] = 200] /\ statusAt' = [statusAt EXCEPT ![i] = ncalls[i]]
        ELSE UNCHANGED <<status, statusAt>>
-  /\ UNCHANGED <<cs, rbuf, rn, eb, memR, memE, nR, nE, sid, k, off, poolR, poolE, freeSids, sidSeq, slog, ncalls>>
+  /\ UNCHANGED <<cs, rbuf, rn, eb, memR, memE, nR, nE, sid, k, off, poolR, poolE, freeSids, sidSeq, slog, ncalls, gzVars>>
 
 InLast(i) ==
   /\ pc[i] = "inlast"
@@ -301,7 +386,7 @@ InLast(i) ==
   /\ eb' = [eb EXCEPT ![i].len = 0]                                  \* eventBuff = eventBuff[:0]
   /\ res' = [res EXCEPT ![i] = "ok"]
   /\ pc' = [pc EXCEPT ![i] = AfterFlush(i)]
-  /\ UNCHANGED <<cs, rbuf, rn, memR, memE, nR, nE, sid, k, off, poolR, poolE, freeSids, sidSeq, status, statusAt>>
+  /\ UNCHANGED <<cs, rbuf, rn, memR, memE, nR, nE, sid, k, off, poolR, poolE, freeSids, sidSeq, status, statusAt, gzVars>>
 
 (* deferred, in LIFO order: p.putSourceID(sourceID); p.eventBuffs.Put(&eventBuff); p.readBuffs.Put(&readBuff) *)
 PutSid(i) ==
@@ -309,21 +394,21 @@ PutSid(i) ==
   /\ freeSids' = IF Mutant = "sid_early_release" THEN freeSids ELSE Append(freeSids, sid[i])
   /\ sid' = [sid EXCEPT ![i] = -1]
   /\ pc' = [pc EXCEPT ![i] = AfterPutSid(i)]
-  /\ UNCHANGED <<cs, rbuf, rn, eb, pend, memR, memE, nR, nE, k, off, res, poolR, poolE, sidSeq, slog, ncalls, status, statusAt>>
+  /\ UNCHANGED <<cs, rbuf, rn, eb, pend, memR, memE, nR, nE, k, off, res, poolR, poolE, sidSeq, slog, ncalls, status, statusAt, gzVars>>
 
 (* p.eventBuffs.Put(&eventBuff): ownership of the buffer ends here *)
 PutE(i) ==
   /\ pc[i] = "putE"
   /\ poolE' = Append(poolE, eb[i])
   /\ pc' = [pc EXCEPT ![i] = "putR"]
-  /\ UNCHANGED <<cs, rbuf, rn, eb, pend, memR, memE, nR, nE, sid, k, off, res, poolR, freeSids, sidSeq, slog, ncalls, status, statusAt>>
+  /\ UNCHANGED <<cs, rbuf, rn, eb, pend, memR, memE, nR, nE, sid, k, off, res, poolR, freeSids, sidSeq, slog, ncalls, status, statusAt, gzVars>>
 
 (* p.readBuffs.Put(&readBuff): ownership of the buffer ends here *)
 PutR(i) ==
   /\ pc[i] = "putR"
   /\ poolR' = Append(poolR, rbuf[i])
   /\ pc' = [pc EXCEPT ![i] = AfterPutR(i, res[i])]
-  /\ UNCHANGED <<cs, rbuf, rn, eb, pend, memR, memE, nR, nE, sid, k, off, res, poolE, freeSids, sidSeq, slog, ncalls, status, statusAt>>
+  /\ UNCHANGED <<cs, rbuf, rn, eb, pend, memR, memE, nR, nE, sid, k, off, res, poolE, freeSids, sidSeq, slog, ncalls, status, statusAt, gzVars>>
 
 (* serveBulk after processBulk returned: http.Error(400) on error, else w.Write(result) = 200 *)
 Status(i) ==
@@ -332,19 +417,19 @@ Status(i) ==
        THEN /\ status' = [status EXCEPT ![i] = IF res[i] = "ok" THEN 200 ELSE 400]
             /\ statusAt' = [statusAt EXCEPT ![i] = ncalls[i]]
        ELSE UNCHANGED <<status, statusAt>>
-  /\ pc' = [pc EXCEPT ![i] = "done"]
-  /\ UNCHANGED <<cs, rbuf, rn, eb, pend, memR, memE, nR, nE, sid, k, off, res, poolR, poolE, freeSids, sidSeq, slog, ncalls>>
+  /\ pc' = [pc EXCEPT ![i] = IF zr[i] # 0 THEN "putZ" ELSE "done"]
+  /\ UNCHANGED <<cs, rbuf, rn, eb, pend, memR, memE, nR, nE, sid, k, off, res, poolR, poolE, freeSids, sidSeq, slog, ncalls, gzVars>>
 
-Next == \E i \in Reqs : Start(i) \/ GetR(i) \/ GetE(i) \/ GetSid(i) \/ Read(i) \/ Chunk(i) \/ Flush(i) \/ InLast(i)
+Next == \E i \in Reqs : Start(i) \/ GetZ(i) \/ PutZ(i) \/ GetR(i) \/ GetE(i) \/ GetSid(i) \/ Read(i) \/ Chunk(i) \/ Flush(i) \/ InLast(i)
                         \/ PutSid(i) \/ PutE(i) \/ PutR(i) \/ Status(i)
 
 Spec == Init /\ [][Next]_vars
 
 -----------------------------------------------------------------------------
 (* properties *)
-PCs == {"idle", "getR", "getE", "getSid", "read", "chunk", "flush", "inlast", "putSid", "putE", "putR", "status", "done"}
+PCs == {"idle", "getZ", "putZ", "getR", "getE", "getSid", "read", "chunk", "flush", "inlast", "putSid", "putE", "putR", "status", "done"}
 TypeOK == /\ \A i \in Reqs : pc[i] \in PCs /\ status[i] \in {0, 200, 400}
-          /\ Len(poolR) <= Len(cs) /\ Len(poolE) <= Len(cs) /\ sidSeq <= Len(cs) /\ nR <= Len(cs) /\ nE <= Len(cs)
+          /\ Len(poolR) <= Len(cs) /\ Len(poolE) <= Len(cs) /\ sidSeq <= Len(cs) /\ nR <= Len(cs) /\ nE <= Len(cs) /\ nZ <= Len(cs) /\ Len(poolZ) <= Len(cs) + 1
 
 OracleSane == (\A i \in Reqs : pc[i] = "idle") => \A i \in Reqs : OracleOK(cs[i].body)
 
@@ -376,10 +461,12 @@ CarryIsTail ==
 \* C11 (2): 200 only after every line of the body has been handed over; never on a reader error
 OKOnlyAfterAllLines ==
   \A i \in Reqs : status[i] = 200 =>
-     /\ cs[i].end # "err"
+     /\ cs[i].end \notin ErrEnds /\ ~cs[i].bad
      /\ statusAt[i] = Len(Expected(cs[i].body))
      /\ IsPrefix(Expected(cs[i].body), ReqData(i))
-NoOKOnError == \A i \in Reqs : pc[i] = "done" /\ cs[i].end = "err" => status[i] = 400
+NoOKOnError == \A i \in Reqs : pc[i] = "done" /\ (cs[i].end \in ErrEnds \/ cs[i].bad) => status[i] = 400
+\* a complete, well-formed body is acknowledged (sanity of the model; not part of the statement)
+GoodGets200 == \A i \in Reqs : pc[i] = "done" /\ cs[i].end \notin ErrEnds /\ ~cs[i].bad => status[i] = 200
 
 \* C11 (3): concurrently served requests hold different source ids ...
 SidExclusive == \A i, j \in Reqs : i # j /\ sid[i] # -1 /\ sid[j] # -1 => sid[i] # sid[j]
@@ -406,6 +493,15 @@ BufOwned ==
 PendingStable == \A i \in Reqs : pc[i] = "inlast" =>
                     LET e == Expected(cs[i].body)
                     IN e # <<>> /\ SubSeq(memE[pend[i].id], 1, pend[i].len) = e[Len(e)]
+
+\* A pooled object is owned by at most one request from Get to Put, and the pool holds each object at most once:
+\* every Get is followed by at most one Put on every path (exactly one on the good path, none when Reset failed).
+PoolHoldsEachObjectOnce ==
+  /\ \A a, b \in 1..Len(poolZ) : a # b => poolZ[a] # poolZ[b]
+  /\ \A i \in Reqs : zr[i] # 0 => \A a \in 1..Len(poolZ) : poolZ[a] # zr[i]
+  /\ \A i, j \in Reqs : i # j /\ zr[i] # 0 /\ zr[j] # 0 => zr[i] # zr[j]
+\* the reader a request decompresses through is pointed at its own body
+ReaderIsMine == \A i \in Reqs : pc[i] \in {"getR", "getE", "getSid", "read", "chunk"} /\ zr[i] # 0 => zobj[zr[i]].src = i
 
 AllDone == \A i \in Reqs : pc[i] = "done"
 \* everything taken is given back
